@@ -20,6 +20,15 @@ from . import common, meshes
 from .common import flit, coq_list
 
 
+def seg_dist_c07(poly, P):
+    """distance of each point of P to the closed polyline poly"""
+    A, B = poly[:-1], poly[1:]
+    d = B - A
+    t = np.clip(np.einsum("pij,ij->pi", P[:, None, :] - A[None], d) / np.maximum(np.einsum("ij,ij->i", d, d), 1e-300), 0, 1)
+    C = A[None] + t[..., None] * d[None]
+    return np.min(np.linalg.norm(P[:, None, :] - C, axis=2), axis=1)
+
+
 def shoelace(p):
     x, y = p[:, 0], p[:, 1]
     return 0.5 * float(np.sum(x[:-1] * y[1:] - x[1:] * y[:-1]))
@@ -77,6 +86,27 @@ def check_mesh(rep, dev, spec, mi):
                            if min(r.distance(Point(*(S[i] * xi))) for r in rings) < 1e-12 * max(dev.film.extents)]
     if interior_on_outline:
         rep.violation("a site on an outline is not a boundary site", {**case, "site": int(interior_on_outline[0])})
+    # Device.boundary_sites(): one closed loop of site indices per outline (film, each hole) - exactly the mesh sites on that outline,
+    # consecutive ones joined by a boundary edge
+    if spec.get("scale", 1.0) == 1.0 and 0.1 <= xi <= 10 and spec.get("smooth", 0) == 0:
+        try:
+            bs = dev.boundary_sites()
+        except Exception as e:  # noqa: BLE001
+            bs = None
+            rep.violation(f"Device.boundary_sites() raised {type(e).__name__}: {e}"[:160], case)
+        if bs is not None:
+            bset = {(min(int(a_), int(b_)), max(int(a_), int(b_))) for a_, b_ in bedges}
+            for poly in [dev.film] + list(dev.holes):
+                ring = LineString(poly.points)
+                on_ring = {int(i) for i in bsites if ring.distance(Point(*(S[i] * xi))) <= tolb}
+                got_ = [int(i) for i in bs.get(poly.name, [])]
+                loop_ = got_[:-1] if len(got_) > 1 and got_[0] == got_[-1] else got_
+                if set(loop_) != on_ring:
+                    rep.violation("Device.boundary_sites() does not list exactly the mesh sites on an outline",
+                                  {**case, "polygon": poly.name, "listed": len(set(loop_)), "on_outline": len(on_ring)})
+                elif any((min(a_, b_), max(a_, b_)) not in bset for a_, b_ in zip(loop_, loop_[1:] + loop_[:1])):
+                    rep.violation("consecutive sites of Device.boundary_sites() are not joined by boundary edges (not a closed loop)",
+                                  {**case, "polygon": poly.name})
     # Euler characteristic
     chi = len(S) - len(em.edges) + len(Tn)
     if chi != 1 - len(dev.holes):
@@ -246,6 +276,25 @@ def run(rep: common.Report, tier: str, seed: int, replay=None) -> int:
                   f"  [kite2 OpsF A B C U; kite2 OpsF B C A U; kite2 OpsF C A B U; tri2 OpsF A B C]) {tl}.\n")
             texts.append(t)
             infos.append((dev, sel_t, {"mesh": mi, **spec}))
+    # Polygon.make_mesh(): a single polygon meshed on its own, wherever it sits: the triangles tile the polygon
+    import tdgl as _tdgl
+    from tdgl.geometry import box as _box, ellipse as _ell
+    from tdgl.finite_volume.util import triangle_areas as _tri_areas
+    for pj, (pts_, kw_) in enumerate(((_box(3.0, 2.0, points=60, center=(11.0, -4.0)), dict(min_points=250)),
+                                      (_ell(2.0, 1.2, points=80, center=(-6.0, 9.0), angle=25.0), dict(min_points=300, smooth=2)),
+                                      (_box(2.0, 2.0, points=40, center=(0.0, 0.0)), dict()))):
+        pg = _tdgl.Polygon(f"single_{pj}", points=pts_)
+        try:
+            pm = pg.make_mesh(**kw_)
+            ta = _tri_areas(pm.sites, pm.elements)
+            inside = pg.contains_points(pm.sites, radius=1e-9) | (seg_dist_c07(pg.points, pm.sites) < 1e-9)
+            if np.any(ta <= 0) or abs(float(np.sum(ta)) - pg.area) > 1e-9 * pg.area or not np.all(inside):
+                rep.violation("Polygon.make_mesh(): the triangles do not tile the polygon where it sits",
+                              {"polygon": pj, "options": {k_: str(v_) for k_, v_ in kw_.items()}, "triangle_area": float(np.sum(ta)),
+                               "polygon_area": float(pg.area), "sites_outside": int(np.sum(~inside))})
+        except Exception as e:  # noqa: BLE001
+            rep.violation(f"Polygon.make_mesh() raised {type(e).__name__}: {e}"[:200], {"polygon": pj})
+        rep.count(1)
     outs = common.run_model_shards("c07_case", texts, jobs=8)
     ndis = 0
     for (rc, out), (dev, sel_t, case) in zip(outs, infos):
